@@ -66,6 +66,18 @@ func (p *ProjectionPlan) Batch(ctx *ExecuteCtx) ([][]Column, error) {
 	return p.processProjectionBatch(kvps, ctx)
 }
 
+// ownsName reports whether field i is the field its name refers to. The field
+// cache is keyed by name and a name refers to the first field carrying it, so a
+// later field with the same name must not be served from the cache.
+func (p *ProjectionPlan) ownsName(i int) bool {
+	for j := 0; j < i && j < len(p.FieldNames); j++ {
+		if p.FieldNames[j] == p.FieldNames[i] {
+			return false
+		}
+	}
+	return true
+}
+
 func (p *ProjectionPlan) processProjectionBatch(chunk []KVPair, ctx *ExecuteCtx) ([][]Column, error) {
 	var (
 		nFields = len(p.Fields)
@@ -76,7 +88,7 @@ func (p *ProjectionPlan) processProjectionBatch(chunk []KVPair, ctx *ExecuteCtx)
 	)
 	for i := 0; i < nFields; i++ {
 		have = false
-		if ctx != nil {
+		if ctx != nil && p.ownsName(i) {
 			fname := p.FieldNames[i]
 			cols[i], have = ctx.GetChunkFieldFinalResult(fname)
 		}
@@ -108,7 +120,7 @@ func (p *ProjectionPlan) processProjection(kvp KVPair, ctx *ExecuteCtx) ([]Colum
 	)
 	for i := 0; i < nFields; i++ {
 		have := false
-		if ctx != nil {
+		if ctx != nil && p.ownsName(i) {
 			fname := p.FieldNames[i]
 			result, have = ctx.GetFieldResult(fname)
 		}
